@@ -264,6 +264,10 @@ def run(repo, chk):
         nm, cp = kwarg(c, "name"), kwarg(c, "capture")
         chk.ob("R13.2", f"selector._resolve:constraint-on-{field}:named-by-signature", nm is not None and cp is not None and norm(nm) == "selfname" == norm(cp), rs.where,
                "the receiver element is named and captured under the signature's parameter name (the receiver is reported in the event)")
+    from .shared import call_aggregates
+    hv, ok_hv = call_aggregates(repo, "hasval")
+    chk.ob("R13.4", "selector.Call.hasval:sees-nested-constraints", ok_hv, hv.where,
+           "whether the capture check is installed at all is decided by Call.hasval over the captures AND the child calls: a receiver constraint on a nested level (`run_all > obj.meth > v`) still filters")
     # R13.3
     mt = [n for n in walk_local(rs.node) if isinstance(n, ast.If) and norm(n.test) == "isinstance(fn, types.MethodType)"]
     frs = facts_of(rs)
